@@ -40,7 +40,8 @@ TECHNIQUE = ('runtime monitoring: reference-model monitor (independent table rea
 LEVEL_TEXT = ('Each observed call of the neutron calculators is re-computed by an independent reference (own reader of the embedded '
               'tables, the equations of the neutron_scattering docstring, own interpolation and masses) and all seven outputs are compared '
               'at every wavelength; single atoms and energy-table nodes are swept exhaustively, compounds, densities, wavelengths and '
-              'call shapes are a seeded random sample.')
+              'call shapes are a seeded random sample.'
+              ' Added in rounds 4-7: every energy-dependent entry also on a private table after nsf.init(reload=True); zero-count atoms listed first.')
 LEVEL_NOTE = ('Tolerance 1e-10 relative; absolute floors only where a value is the residue of a cancellation (clipped sigma_s - sigma_c, '
               'mixed-sign scattering-length sums), DESIGN 3.7. Where documentation and code agree on a wrong equation the monitor is blind.')
 SHARDS = {'quick': 8, 'thorough': 16}
